@@ -71,11 +71,17 @@ def canon(v):
     return [float(x) for x in np.atleast_1d(np.asarray(v, dtype=float)).ravel()]
 
 
+def bounds(setting):
+    """the range of the output variable: [0, 1] unless the setting carries its own (4th, 5th component)"""
+    return (float(setting[3]), float(setting[4])) if len(setting) > 3 else (0.0, 1.0)
+
+
 def run_impl(setting, ops):
     """returns list of observations (value list, previous, raised-class-or-None) after each op"""
-    lp, lr, dv = setting
+    lp, lr, dv = setting[:3]
+    lo, hi = bounds(setting)
     st = Stub()
-    ov = fl.OutputVariable("o", minimum=0.0, maximum=1.0, lock_range=lr, lock_previous=lp, default_value=dv,
+    ov = fl.OutputVariable("o", minimum=lo, maximum=hi, lock_range=lr, lock_previous=lp, default_value=dv,
                            defuzzifier=st, terms=[fl.Triangle("t", 0, 0.5, 1)])
     ov.fuzzy.terms.append(fl.Activated(ov.terms[0], 0.5, fl.Minimum()))
     obs = []
@@ -104,12 +110,13 @@ def run_impl(setting, ops):
 
 def spec(setting, ops):
     """the documented cascade, row by row (independent Python oracle)"""
-    lp, lr, dv = setting
+    lp, lr, dv = setting[:3]
+    lo, hi = bounds(setting)
     value, prev, enabled = [NAN], NAN, True
     out = []
 
     def clip(v):
-        return v if v != v else min(max(v, 0.0), 1.0)
+        return v if v != v else min(max(v, lo), hi)
 
     for op in ops:
         raised = None
@@ -144,7 +151,8 @@ def same(a, b):
 
 
 def to_line(setting, ops):
-    lp, lr, dv = setting
+    lp, lr, dv = setting[:3]
+    lo, hi = bounds(setting)
     sops = []
     for op in ops:
         if op[0] == "defuzz":
@@ -155,7 +163,7 @@ def to_line(setting, ops):
             sops.append(["clear"])
         else:
             sops.append(["enable", 1 if op[1] else 0])
-    return C.sx(["cascade", [lp, lr, dv, 0.0, 1.0], sops])
+    return C.sx(["cascade", [lp, lr, dv, lo, hi], sops])
 
 
 def compositions(n):
@@ -218,6 +226,9 @@ def gen_cases(ctx):
     pool2 = POOL + [math.inf, -math.inf, 1.0, 0.0]
     for _ in range(ctx.scale(3000, 30000)):
         setting = (rng.random() < 0.5, rng.random() < 0.5, rng.choice(DEFAULTS))
+        if rng.random() < 0.25:
+            # another range: half-bounded, unbounded, narrow (the values of the pool fall on both sides of the finite bounds)
+            setting = setting + rng.choice([(0.0, math.inf), (-math.inf, 1.0), (-math.inf, math.inf), (0.25, 0.75), (-2.0, 0.5)])
         ops = []
         for _ in range(rng.randint(1, 6)):
             r = rng.random()
